@@ -338,6 +338,9 @@ def check_pixel_guard(ctx, u, methods):
                     brd = x['referencedDecl']
             vd = u.by_id.get(brd['id']) if brd else None
             idx_def = nf(kids(vd)[-1]) if vd is not None and kids(vd) else None
+            if idx_def is not None:
+                from guard import subst_locals as _sl
+                idx_def = _sl(idx_def, s)
             # the index (and the coordinate test) may come from a helper: use its guard facts and
             # its returned expression with the parameters replaced by the caller's arguments
             hfacts, hexpr = _index_helper(vd, u) if vd is not None and kids(vd) else (None, None)
@@ -462,10 +465,14 @@ def check_clamp(ctx, u, methods):
     stmts = stmts_of(body_of(f))
     ifs = [s for s in stmts if s.get('kind') == 'IfStmt']
 
+    from guard import local_defs
+    ldefs = local_defs(f)
+
     def leaf_for(axis):
         o, e, so, dim = {'x': ('*x', '*w', '*sx', 'get_width'), 'y': ('*y', '*h', '*sy', 'get_height')}[axis]
         mp = {o: 'A', e: 'W', so: 'SA', 'source.%s()' % dim: 'source.dim', 'dest.%s()' % dim: 'dest.dim'}
-        return lambda t: mp.get(t)
+        import re as _re
+        return lambda t: mp.get(_re.sub(r'^\((?:unsigned |signed )?(?:long|int|short|char|ssize_t|size_t|int64_t)(?: long)?\)', '', ldefs.get(t, t)))
 
     def cs(s):
         cond, then, els = if_parts(s)
@@ -550,7 +557,15 @@ def check_clamp(ctx, u, methods):
     if last is not None:
         cond, then, els = cs(last)
         c = nf(cond)
-        okc = c in ('((*w < 0) || (*h < 0))', '((*h < 0) || (*w < 0))') and sorted(nf(t) for t in then) == ['(*h = 0)', '(*w = 0)'] and last is stmts[-1]
+        neg = set()
+        for n_, pol_ in atoms([Fact(cond, False, last)]):
+            r_ = relation(n_, pol_)
+            if r_:
+                a_, o_, b_ = nf(r_[0]), r_[1], nf(r_[2])
+                if a_ == '0':
+                    a_, o_, b_ = b_, FLIP[o_], a_
+                neg.add((a_, o_, b_))
+        okc = neg == {('*w', '>=', '0'), ('*h', '>=', '0')} and sorted(nf(t) for t in then) == ['(*h = 0)', '(*w = 0)'] and last is stmts[-1]
     ctx.check(okc, R, 'negative-extent-collapses', last or f, 'w<0 or h<0 => empty area, as the last step', 'the final step does not collapse a negative extent to an empty area')
     # fill_rect clipping: same symmetric structure
     for g in methods:
